@@ -21,12 +21,32 @@ static void vp_bytes(gchar *dst, const gchar *src, size_t n) { for (size_t vp_b 
 /* ---------------- GArray (concrete) ---------------- */
 typedef struct { gchar *data; guint len; guint elt_size; guint cap; } vp_garray;   /* first two members = GArray */
 
+#ifdef VP_GLIB_FIXED_CAP
+/* fixed-capacity variant for bounded stand-ins: storage for VP_GLIB_FIXED_CAP elements allocated once, appends beyond it
+ * are outside the stated bound (assumed away) - avoids the reallocation copies that dominate the SAT problem */
+GArray *g_array_sized_new(gboolean zero_terminated, gboolean clear_, guint element_size, guint reserved_size) {
+	vp_garray *a = malloc(sizeof(vp_garray));
+	__CPROVER_assume(a != NULL);
+	a->len = 0; a->elt_size = element_size; a->cap = VP_GLIB_FIXED_CAP; a->data = malloc((size_t)VP_GLIB_FIXED_CAP * element_size);
+	__CPROVER_assume(a->data != NULL);
+	return (GArray *)a;
+}
+#define VP_GLIB_NO_GARRAY_APPEND
+GArray *g_array_append_vals(GArray *array, gconstpointer data, guint len) {
+	vp_garray *a = (vp_garray *)array;
+	__CPROVER_assume(len <= a->cap - a->len);
+	vp_bytes(a->data + (size_t)a->len * a->elt_size, (const gchar *)data, (size_t)len * a->elt_size);
+	a->len += len;
+	return array;
+}
+#else
 GArray *g_array_sized_new(gboolean zero_terminated, gboolean clear_, guint element_size, guint reserved_size) {
 	vp_garray *a = malloc(sizeof(vp_garray));
 	__CPROVER_assume(a != NULL);
 	a->len = 0; a->elt_size = element_size; a->cap = 0; a->data = NULL;
 	return (GArray *)a;
 }
+#endif
 GArray *g_array_new(gboolean z, gboolean c, guint element_size) { return g_array_sized_new(z, c, element_size, 0); }
 
 #ifndef VP_GLIB_NO_GARRAY_APPEND
